@@ -30,7 +30,7 @@ PROPS = {
 TRUSTED_BASE = [
     'Verus 0.2026.09.13 + Z3; vstd specifications of str/Vec/slice/Option/iterators (as_bytes, split_at, is_char_boundary, get, push, iter().rev())',
     'Kani 0.68.0 + CBMC 6.11 + CaDiCaL; Kani models of alloc/core as compiled for cfg(kani)',
-    'VX extraction rules D1-D7 (attributes dropped, log macros -> (), basic_op! expanded from its macro_rules! body, std-trait impls re-emitted as inherent fns, str::len -> as_bytes().len(), functions outside the subset as signature + assumed contract, receiver projection); re-derived from /repo on every run',
+    'VX extraction rules D1-D12 (attributes dropped, log macros -> (), basic_op! expanded from its macro_rules! body, std-trait impl methods re-emitted as inherent / free fns, str::len -> as_bytes().len(), functions outside the subset as signature + assumed contract, receiver projection, reference or-patterns, re-bound mut parameters, `for &b in`, two call-site stubs; DESIGN.md 10.1); re-derived from /repo on every run',
     'KX injection: harness modules appended under cfg(kani), derive(kani::Arbitrary) on 14 plain enums of lang.rs; add-only, byte-equality of the rest re-checked on every run',
     'machine arithmetic is Rust fixed-width arithmetic in both tools (overflow is an obligation, not assumed away)',
     'unsafe AVX2 code (find_identifier_end_avx2) and its run-time dispatch are not verified',
